@@ -279,6 +279,7 @@ func C13(c *core.Ctx, replay string) {
 		return o
 	}
 
+	dirObj := PutObject(cl, "rng", "d0/", nil).OK()
 	var lines []any
 	var meta []rangeLine
 	exec := func(size int64, r rangeR, allowed [][2]int64) {
@@ -324,6 +325,16 @@ func C13(c *core.Ctx, replay string) {
 			c.Eval(nt)
 			if len(c.Samples) < 6 && present && c.Rng.Intn(40) == 0 {
 				c.Sample(hl)
+			}
+			// an explicit directory object is an object of size 0
+			if size == 0 && dirObj {
+				dresp := GetObject(cl, "rng", "d0/", hdrs...)
+				if dresp.Err == nil {
+					dl := rangeLine{Size: 0, R: r, Kind: "http", Str: s + " (directory object)", O: observeRange(nil, dresp, allowed)}
+					lines = append(lines, dl)
+					meta = append(meta, dl)
+					c.Eval("dir|" + s)
+				}
 			}
 		}
 	}
